@@ -1233,35 +1233,65 @@ func (c *Ctx) HoverUnderContains(ob *core.Obligation) {
 	}
 	c.Touch(gd)
 	good := false
-	for _, b := range gd.Blocks {
-		for _, in := range b.Instrs {
-			st, ok := in.(*ssa.Store)
-			if !ok {
-				continue
+	// the answer may be built by a helper of the package that is handed the hovered node
+	scan := []*ssa.Function{gd}
+	for _, ci := range core.Calls(gd) {
+		if sc := ci.Common().StaticCallee(); sc != nil && sc != gd && len(sc.Blocks) > 0 && relOfFn(sc) == relOfFn(gd) && sc.Signature.Results().Len() == 1 &&
+			types.Identical(sc.Signature.Results().At(0).Type(), gd.Signature.Results().At(0).Type()) {
+			scan = append(scan, sc)
+		}
+	}
+	isHoveredNode := func(v ssa.Value, fn *ssa.Function) bool {
+		if strings.HasSuffix(fieldPath(v), "Node") {
+			return true
+		}
+		prm, ok := resolveLocal(v).(*ssa.Parameter)
+		if !ok || prm.Parent() != fn || fn == gd {
+			return false
+		}
+		sites, ok := c.argSites(fn, prm)
+		if !ok {
+			return false
+		}
+		for _, s := range sites {
+			if s.Caller != gd || !strings.HasSuffix(fieldPath(s.Arg), "Node") {
+				return false
 			}
-			if f := core.FieldOf(st.Addr); f == nil || f.Name() != "Range" {
-				continue
-			}
-			p := fieldPath(st.Val)
-			if !strings.HasSuffix(p, "Name.Range") {
-				continue
-			}
-			// rooted at the result of ResolveVar(<hover>.Node)
-			v := st.Val
-			for i := 0; i < 8; i++ {
-				switch x := v.(type) {
-				case *ssa.UnOp:
-					v = x.X
-					continue
-				case *ssa.FieldAddr:
-					v = x.X
+		}
+		c.Touch(fn)
+		return true
+	}
+	for _, sfn := range scan {
+		for _, b := range sfn.Blocks {
+			for _, in := range b.Instrs {
+				st, ok := in.(*ssa.Store)
+				if !ok {
 					continue
 				}
-				break
-			}
-			if call, ok := v.(*ssa.Call); ok {
-				if o := core.CalleeObj(&call.Call); o != nil && o.Name() == "ResolveVar" && strings.HasSuffix(fieldPath(call.Call.Args[len(call.Call.Args)-1]), "Node") {
-					good = true
+				if f := core.FieldOf(st.Addr); f == nil || f.Name() != "Range" {
+					continue
+				}
+				p := fieldPath(st.Val)
+				if !strings.HasSuffix(p, "Name.Range") {
+					continue
+				}
+				// rooted at the result of ResolveVar(<hover>.Node)
+				v := st.Val
+				for i := 0; i < 8; i++ {
+					switch x := v.(type) {
+					case *ssa.UnOp:
+						v = x.X
+						continue
+					case *ssa.FieldAddr:
+						v = x.X
+						continue
+					}
+					break
+				}
+				if call, ok := v.(*ssa.Call); ok {
+					if o := core.CalleeObj(&call.Call); o != nil && o.Name() == "ResolveVar" && isHoveredNode(call.Call.Args[len(call.Call.Args)-1], sfn) {
+						good = true
+					}
 				}
 			}
 		}
